@@ -35,6 +35,12 @@ def seg_alphabet():
         ("pong", [R.encode(R.PONG, b"q")]),
         ("burst-t-ping-b", [R.encode(R.TEXT, "é".encode()) + R.encode(R.PING, b"") + R.encode(R.BINARY, b"b")]),
         ("burst-3-texts", [R.encode(R.TEXT, b"1") + R.encode(R.TEXT, b"2") + R.encode(R.TEXT, b"3")]),
+        # one frame split across two transport segments, the second segment also carrying the next frame
+        ("split-payload+tail", [R.encode(R.TEXT, b"0123456789")[:5], R.encode(R.TEXT, b"0123456789")[5:] + R.encode(R.TEXT, b"tail")]),
+        ("split-header+ping", [R.encode(R.BINARY, b"xyz")[:1], R.encode(R.BINARY, b"xyz")[1:] + R.encode(R.PING, b"pp")]),
+        ("split-len16+tail", [R.encode(R.BINARY, bytes(200))[:3], R.encode(R.BINARY, bytes(200))[3:] + R.encode(R.TEXT, b"after")]),
+        # a frame larger than one transport read followed by another frame in the same segment
+        ("big+tail", [R.encode(R.BINARY, bytes(range(256)) * 80) + R.encode(R.TEXT, b"t")]),
     ]
 
 
@@ -43,7 +49,7 @@ SEGS = seg_alphabet()
 
 def bounds(tier):
     if tier == "quick":
-        return "histories of <= 3 segments over 8 segment kinds x glued/not x plain/TLS x 9 callback subsets x 6 raising options; reconnected connection"
+        return "histories of <= 3 segments over 12 segment kinds x glued/not x plain/TLS x 9 callback subsets x 6 raising options; reconnected connection"
     return "histories of <= 4 segments x 9 callback subsets; histories of <= 2 segments x all 128 callback subsets; x glued x plain/TLS x 6 raising options"
 
 
@@ -76,9 +82,10 @@ def expected_events(pieces_at, cbs, raising):
     """pieces_at: list of (time, bytes). returns list of (time, name, args) for the data-plane callbacks."""
     ev = []
     rea = R.Reassembler()
+    buf = b""
     for t, data in pieces_at:
-        frames, rest = R.decode_all(data)
-        assert not rest
+        buf += data
+        frames, buf = R.decode_all(buf)  # a frame is complete at the instant its last byte arrives
         for f in frames:
             if f.opcode == R.PING:
                 ev.append((t, "on_ping", (f.payload,)))
